@@ -168,12 +168,12 @@ theorem sim_step_other (k old s1 s2) (hs : Sim k old s1 s2) (op : Op) (hop : op 
     simp only [step, quiet, hp]
     split
     · exact ⟨⟨by simp, by simp [hse], hold, hk, by simp [hh]⟩, by simp⟩
-    · exact ⟨⟨by simp [hp], by simp [hse], hold, hk, by simp [hh]⟩, by simp [hp]⟩
+    · exact ⟨⟨by simp [hp], by simp [hse], hold, hk, by simp [hh]⟩, by simp⟩
   | hold i =>
     simp only [step, quiet, hp]
     split
-    · exact ⟨⟨by simp [hp], by simp [hse], hold, hk, by simp [hh, hp, hse]⟩, by simp [hp]⟩
-    · exact ⟨⟨by simp [hp], by simp [hse], hold, hk, by simp [hh]⟩, by simp [hp]⟩
+    · exact ⟨⟨by simp, by simp [hse], hold, hk, by simp [hh, hse]⟩, by simp⟩
+    · exact ⟨⟨by simp [hp], by simp [hse], hold, hk, by simp [hh]⟩, by simp⟩
   | release =>
     have ho : old = [] := by rcases hop with h | h; exact absurd rfl h; exact h
     subst ho
